@@ -130,6 +130,8 @@ def do_run(kind, start, log):
             marks.append((name, 'start', time.now))
             async for now in it:
                 marks.append((name, 'tick', now))
+                if len(marks) > 200:
+                    raise RuntimeError('runaway: %s is still ticking at %r' % (name, now))      # (run() did not stop at till)
 
         async def launcher(name):
             marks.append((name, 'start', time.now))
@@ -187,7 +189,8 @@ def history_case(kinds):
         msgs.append('a simulation is visible before any run')
     for i, kind in enumerate(kinds):
         try:
-            msgs += ['run %d: %s' % (i, m) for m in do_run(kind, 10 * (i + 1), None)]
+            with kernel.ExecTimer():
+                msgs += ['run %d: %s' % (i, m) for m in do_run(kind, 10 * (i + 1), None)]
         except BaseException as e:       # noqa
             msgs.append('run %d (%s) let %r escape' % (i, kind, e))
         if not outside():
